@@ -62,7 +62,11 @@ func generateStructSpec(openapi *openapi3.T, model definitions.StructMetadata) {
 			continue
 		}
 		validationTag := swagtool.GetTagValue(field.Tag, "validate", "")
-		BuildSchemaValidation(fieldSchemaRef, validationTag, field.Type)
+		// A reference shares (or does not yet have) the schema of the referenced component;
+		// usage-site validation rules must not be written into the component itself
+		if fieldSchemaRef.Ref == "" {
+			BuildSchemaValidation(fieldSchemaRef, validationTag, field.Type)
+		}
 
 		// OpenAPI 3.0 does not support any extra field in the SchemaRef beside just ref, and we don't want to override the model properties themselves
 		if fieldSchemaRef.Value != nil && fieldSchemaRef.Ref == "" {
